@@ -57,7 +57,49 @@ def _row_offset(expr: Optional[str]) -> Optional[int]:
     return int(m.group(1) or 0)
 
 
+def _rank_offset(e, order: int):
+    """value of a rank expression minus self.dim, for a given operator order: integers, + - *, max/min, `order` and `self.dim`; None if not of that form"""
+    def ev(n):          # -> (coefficient of dim, constant) or None
+        if isinstance(n, ast.Constant) and isinstance(n.value, int) and not isinstance(n.value, bool):
+            return (0, n.value)
+        if isinstance(n, ast.Name) and n.id == "order":
+            return (0, order)
+        if path_of(n) == "self.dim":
+            return (1, 0)
+        if isinstance(n, ast.UnaryOp) and isinstance(n.op, ast.USub):
+            r = ev(n.operand)
+            return None if r is None else (-r[0], -r[1])
+        if isinstance(n, ast.BinOp) and isinstance(n.op, (ast.Add, ast.Sub)):
+            a, b = ev(n.left), ev(n.right)
+            if a is None or b is None:
+                return None
+            sgn = 1 if isinstance(n.op, ast.Add) else -1
+            return (a[0] + sgn * b[0], a[1] + sgn * b[1])
+        if isinstance(n, ast.BinOp) and isinstance(n.op, ast.Mult):
+            a, b = ev(n.left), ev(n.right)
+            if a is None or b is None or (a[0] and b[0]):
+                return None
+            if a[0] == 0:
+                return (a[1] * b[0], a[1] * b[1])
+            return (b[1] * a[0], b[1] * a[1])
+        if isinstance(n, ast.Call) and call_name(n) in ("max", "min") and n.args and not n.keywords:
+            vs = [ev(x) for x in n.args]
+            if any(v_ is None or v_[0] != 0 for v_ in vs):
+                return None
+            f_ = max if call_name(n) == "max" else min
+            return (0, f_(v_[1] for v_ in vs))
+        if isinstance(n, ast.Call) and call_name(n) == "int" and len(n.args) == 1:
+            return ev(n.args[0])
+        return None
+    r = ev(e)
+    return r[1] if r is not None and r[0] == 1 else None
+
+
 def run(chk, repo: Repo):
+    chk.rule("C20-R7", "results of memoised (lru_cache) builders are never written into by their callers (a shared stencil patched for one boundary "
+                       "condition would change every operator built from the same cache entry)", floor=1)
+    from ..memo import memo_rule
+    memo_rule(chk, repo, "C20-R7", ("cuqi/operator/", "cuqi/distribution/", "cuqi/geometry/", "cuqi/utilities/"))
     chk.rule("C20-R1", "precision matrix = (D.T @ D) of the same stored difference operator", floor=1)
     chk.rule("C20-R2", "GMRF/LMRF/CMRF densities apply the operator to x minus the location/mean", floor=4)
     chk.rule("C20-R3", "boundary-condition literals: GMRF ⊆ both operator classes; sampling branch per literal; LMRF/CMRF forward bc_type", floor=4)
@@ -139,6 +181,15 @@ def run(chk, repo: Repo):
             ok = bool(rets) and seen_d[0] > 0 and all(k_ in ("return", "raise") for k_, _ in res) and not any(_re.search(rf"(?<![A-Za-z0-9_.]){x}(?![A-Za-z0-9_])", t or "") for t in rets)
             chk.add("C20-R2", f"{ci.qual}.{mname}", ok, site(repo, f), "differences of x - location",
                     f"{cls}.{mname} does not apply the difference operator to the shifted variable x - location", f)
+            # the density has one factor per ROW of the difference operator (boundary rows included): the closed form, written in D = diff_op @ (x - loc)
+            FORMS = {("LMRF", "logpdf"): "{n}*(-(np.log(2)+np.log(self.scale)))-np.linalg.norm(_DX,ord=1,axis=0)/self.scale",
+                     ("LMRF", "pdf"): "(1/(2*self.scale))**{n}*np.exp(-np.linalg.norm(_DX,ord=1,axis=0)/self.scale)",
+                     ("CMRF", "logpdf"): "-{n}*np.log(np.pi)+sum(np.log(self.scale)-np.log(_DX**2+self.scale**2))"}
+            wantf = {expected_text(FORMS[(cls, mname)].format(n=n_)) for n_ in ("len(_DX)", "_DX.shape[0]", "(len(_DX))", "self._diff_op.shape[0]")}
+            okf = bool(rets) and all(expected_text(t) in wantf or t in wantf for t in rets)
+            chk.add("C20-R2", f"{ci.qual}.{mname}/closed-form", okf, site(repo, f), "normalised with one factor per row of the difference operator",
+                    f"{cls}.{mname} is `{rets[0][:160] if rets else '?'}`: it is not the documented density with one Laplace/Cauchy factor per row of D "
+                    f"(len(D) rows, which exceeds dim for zero / periodic / neumann boundaries and on 2-D grids)", f)
     # R3
     fo = repo.cls(f"{OP}:FirstOrderFiniteDifference")
     so = repo.cls(f"{OP}:SecondOrderFiniteDifference")
@@ -218,8 +269,7 @@ def run(chk, repo: Repo):
             from .common import cases_reaching, OTHER
             lits = [c for c in cases_reaching(gg, n, "bc_type") if c is not OTHER]
             v = _norm(n.ast.value)
-            m = re.fullmatch(r"self\.dim(-(\d+))?", v)
-            off = -int(m.group(2)) if (m and m.group(2)) else (0 if m else None)
+            off = {o_: _rank_offset(n.ast.value, o_) for o_ in (1, 2)}        # rank - dim for each operator order (integer arithmetic, max/min folded)
             ranks.append((n, lits, off, v))
     if not ranks:
         raise AnchorError("GMRF.__init__: rank assignments not found")
@@ -230,12 +280,20 @@ def run(chk, repo: Repo):
                     continue       # already reported by C20-R3 (boundary condition not implemented by this operator class)
                 rows = _row_offset(table.get(bc, {}).get("rows"))
                 inst = f"{gm.qual}.__init__/rank(bc={bc},order={order})"
-                if rows is None or off is None:
+                o = off[order]
+                if rows is None or o is None:
                     raise AnchorError(f"{inst}: cannot read rank `{v}` or the row count of {cname} for bc={bc}")
-                ok = off <= min(0, rows)
-                chk.add("C20-R4", inst, ok, site(repo, n.ast), f"reported rank dim{off:+d} <= rows of D (N{rows:+d})",
-                        f"GMRF reports rank dim{off:+d} for bc_type='{bc}', but the order-{order} difference operator ({cname}) has only N{rows:+d} rows, "
+                ok = o <= min(0, rows)
+                chk.add("C20-R4", inst, ok, site(repo, n.ast), f"reported rank dim{o:+d} <= rows of D (N{rows:+d})",
+                        f"GMRF reports rank dim{o:+d} for bc_type='{bc}', but the order-{order} difference operator ({cname}) has only N{rows:+d} rows, "
                         f"so rank(D.T D) <= N{rows:+d}: the normalising constant (rank, log pseudo-determinant over `rank` eigenvalues) does not belong to the precision", n.ast)
+                # exact null-space dimension where it is known for every order and dimension: zero boundaries -> 0; periodic -> 1 (the constants: every
+                # difference of a constant field vanishes and, on the torus, nothing else does); neumann order 1 -> 1
+                exact = {("zero", 1): 0, ("zero", 2): 0, ("periodic", 1): -1, ("periodic", 2): -1, ("neumann", 1): -1}.get((bc, order))
+                if exact is not None and ok:
+                    chk.add("C20-R4", inst + "/nullity", o == exact, site(repo, n.ast), f"rank = dim{exact:+d}",
+                            f"GMRF reports rank dim{o:+d} for bc_type='{bc}', order {order}; the null space of that difference operator has dimension {-exact} "
+                            f"(rank dim{exact:+d}): rank, the number of eigenvalues in the log pseudo-determinant and the exponent of prec in logpdf are off", n.ast)
         # order awareness: does the rank (or its guards) depend on `order`?
         deps = {x.id for x in ast.walk(n.ast.value) if isinstance(x, ast.Name)} | {x.id for tt, lab in gg.guards_of(n) for x in ast.walk(tt.ast) if isinstance(x, ast.Name)}
         if lits and "zero" not in lits:
